@@ -400,3 +400,105 @@ func Stacks() string {
 }
 
 var ErrTimeout = errors.New("timeout")
+
+// Multi drives several gated connections of one server at request granularity.
+type Multi struct {
+	Srv     Server
+	Conns   []*ScriptConn
+	ended   []chan struct{}
+	mu      sync.Mutex
+	out     []*Outcome
+	Timeout time.Duration
+	Log     *Log
+}
+
+// NewMulti opens n gated connections, each served by its own goroutine, and waits until all are idle.
+func NewMulti(srv Server, n int, timeout time.Duration) (*Multi, error) {
+	m := &Multi{Srv: srv, Timeout: timeout, Log: &Log{}}
+	for i := 0; i < n; i++ {
+		if err := m.Open(); err != nil {
+			return m, err
+		}
+	}
+	return m, nil
+}
+
+// Open adds one more connection and waits until it is idle.
+func (m *Multi) Open() error {
+	c := NewGated(len(m.Conns))
+	c.Log = m.Log
+	i := len(m.Conns)
+	m.Conns = append(m.Conns, c)
+	ended := make(chan struct{})
+	m.ended = append(m.ended, ended)
+	m.mu.Lock()
+	m.out = append(m.out, nil)
+	m.mu.Unlock()
+	ch := Go(m.Srv, c)
+	go func() {
+		o := <-ch
+		m.mu.Lock()
+		m.out[i] = &o
+		m.mu.Unlock()
+		close(ended)
+	}()
+	_, err := m.wait(i)
+	return err
+}
+
+func (m *Multi) wait(i int) (alive bool, err error) {
+	idle, timedOut := m.Conns[i].WaitIdle(m.ended[i], m.Timeout)
+	if timedOut {
+		return false, ErrTimeout
+	}
+	if idle {
+		return true, nil
+	}
+	// the connection goroutine is ending: wait for its outcome
+	select {
+	case <-m.ended[i]:
+	case <-time.After(m.Timeout):
+		return false, ErrTimeout
+	}
+	return false, nil
+}
+
+// Step delivers one request to connection i and waits until the server is idle on it again
+// (or the connection ended). It returns the frames written in response.
+func (m *Multi) Step(i int, req []byte) (frames []resp.Value, alive bool, err error) {
+	before := m.Conns[i].FrameCount()
+	if m.Outcome(i) != nil {
+		return nil, false, nil
+	}
+	m.Conns[i].Feed(req)
+	alive, err = m.wait(i)
+	all, _, _ := m.Conns[i].Frames()
+	if len(all) > before {
+		frames = all[before:]
+	}
+	return frames, alive, err
+}
+
+// Outcome of connection i if it has ended.
+func (m *Multi) Outcome(i int) *Outcome {
+	m.mu.Lock()
+	defer m.mu.Unlock()
+	return m.out[i]
+}
+
+// CloseAll ends every connection (client closes its side) and waits for the goroutines.
+func (m *Multi) CloseAll() error {
+	for i, c := range m.Conns {
+		if m.Outcome(i) == nil {
+			c.CloseRead(false)
+		}
+	}
+	for i := range m.Conns {
+		select {
+		case <-m.ended[i]:
+		case <-time.After(m.Timeout):
+			return ErrTimeout
+		}
+	}
+	return nil
+}
